@@ -288,7 +288,7 @@ func TestP2Exhaustive(t *testing.T) {
 func TestP3PS(t *testing.T) {
 	rec := ev.New("C04", "ps")
 	defer rec.Finish(t)
-	rec.Rule("the library's own serialisation: String(b).PS() for arbitrary byte strings (all 256 values, hostile mixes of parentheses, backslashes, CR, LF, NUL; balanced and unbalanced) and Name(n).PS() for names of regular characters, each executed and compared with the original value; exhaustively all strings of length <= 2 over the 8 critical bytes ( ) \\ CR LF NUL a 0x80. Non-trivial: string contains a critical byte, or any name; distinct by value.")
+	rec.Rule("the library's own serialisation: String(b).PS() for arbitrary byte strings (all 256 values, hostile mixes of parentheses, backslashes, CR, LF, NUL; balanced and unbalanced) and Name(n).PS() for names of regular characters, each executed and compared with the original value; exhaustively all strings of length <= 3 over the 8 critical bytes ( ) \\ CR LF NUL a 0x80, and a pair of each critical byte at every offset 0..600 of a plain string; random strings of 0-40 bytes, one in twenty of 200-2000 bytes. Non-trivial: string contains a critical byte, or any name; distinct by value.")
 	crit := []byte{'(', ')', '\\', '\r', '\n', 0, 'a', 0x80}
 	checkString := func(b []byte) string {
 		txt := postscript.String(b).PS()
@@ -314,6 +314,19 @@ func TestP3PS(t *testing.T) {
 			}
 		}
 		walk(nil)
+		// an escape at every offset 0..600 of an otherwise plain string (a
+		// serialiser that breaks long strings into lines must not cut an
+		// escape sequence in two), for every critical byte
+		for _, c := range crit {
+			for off := 0; off <= 600; off++ {
+				p := append(bytes.Repeat([]byte{'a'}, off), c, c, 'b')
+				rec.Eval(1)
+				rec.NonTrivialHash(ev.Hash("s" + string(p)))
+				if msg := ev.Safe(func() string { return checkString(p) }); msg != "" {
+					rec.Violation(false, msg, map[string]any{"string": p})
+				}
+			}
+		}
 	}
 	ev.SetupRapid(100000, 2000000)
 	rapid.Check(t, func(t *rapid.T) {
@@ -331,6 +344,9 @@ func TestP3PS(t *testing.T) {
 			return
 		}
 		n := rapid.IntRange(0, 40).Draw(t, "len")
+		if rapid.IntRange(0, 19).Draw(t, "long") == 0 {
+			n = rapid.IntRange(200, 2000).Draw(t, "longlen")
+		}
 		b := make([]byte, n)
 		special := false
 		for i := range b {
